@@ -1440,7 +1440,11 @@ mod imp {
                 run_scenario(&c2, &mut out, &sc, &sched, 0, 1, Some(schedule.clone()));
             }
         }
-        if !out.violations.is_empty() {
+        if out.violations.iter().any(|v| v["sig"].as_str().map(|s| s.contains("MACHINERY")).unwrap_or(false)) {
+            // the recorded schedule does not fit the code any more (or the machinery is not deterministic): not a verdict
+            println!("MACHINERY-ERROR: the recorded schedule diverged on this tree (replay file recorded on different code?)");
+            2
+        } else if !out.violations.is_empty() {
             println!("VIOLATION property={} replay={}", ctx.prop, path);
             1
         } else {
